@@ -460,10 +460,10 @@ theorem file_covers (o : Obj) (os : OStream) (r : SaveRes) (hdr : Bytes)
     rw [hFeq]
     exact e_shoff_set_shoff _ _ _ _ (by rw [saveHdr0_length (preSave o) _ hlen]; exact hlen) hfit
   -- the stream after the header write is well formed
-  have hw1 : ((os.seekp (trApply o.trans 0)).write hdrF).WF := by
-    have h1 := OStream.write_fail _ _ hnf
-    obtain ⟨-, w, -, -, -⟩ := OStream.seekp_facts _ _ h1
-    exact (OStream.write_facts _ _ w hnf).1
+  have hw1 : ((os.seekp (trApply o.trans 0)).write hdrF).LayWF := by
+    have h1 := OStream.lay_write_fail _ _ hnf
+    obtain ⟨-, w, -, -, -⟩ := OStream.lay_seekp_facts _ _ h1
+    exact (OStream.lay_write_facts _ _ w hnf).1
   rw [hsho] at hos
   rw [hos] at hfin
   have hmid := saveSegments_sticky _ _ _ _ _ _ hfin
